@@ -284,3 +284,22 @@ TRUSTED_COMMON = [
     "tools/gen_constants.py (translator of Rust constants into Feox/Gen/Constants.lean, regenerated on this run)",
     "the hand-written Lean model, tied to /repo's working tree by this run's correspondence check (Rust harness + feoxdrv + line diff)",
 ]
+
+
+ASAN_TARGET = os.path.join(HARNESS_DIR, "target-asan")
+
+
+def cargo_build_asan(ctx, bins):
+    """the same harness binaries under AddressSanitizer (nightly toolchain, offline)"""
+    cmd = ["cargo", "+nightly", "build", "--release", "--offline", "--target", "x86_64-unknown-linux-gnu"]
+    for b in bins:
+        cmd += ["--bin", b]
+    with BuildLock():
+        r = sh(cmd, cwd=HARNESS_DIR, env={"RUSTFLAGS": "--cfg " + GUARD + " -Zsanitizer=address", "CARGO_TARGET_DIR": ASAN_TARGET})
+    if r.returncode != 0:
+        ctx.log("cargo +nightly (asan) build failed:\n" + r.stdout[-3000:])
+    return r.returncode == 0, r.stdout
+
+
+def asan_bin(name):
+    return os.path.join(ASAN_TARGET, "x86_64-unknown-linux-gnu", "release", name)
